@@ -1,6 +1,7 @@
 import Sentinel.Lemmas.EntryLedger
 import Sentinel.Lemmas.EntryPool
 import Sentinel.Lemmas.EntrySchedule
+import Sentinel.Lemmas.EntryReset
 /-!
 # C01 — Entry/Exit accounting is conserved and correctly attributed
 (property theorems only; the simulation lemmas live in `Sentinel/Lemmas/Entry.lean`)
@@ -305,6 +306,55 @@ theorem schedule_independent (fix : Bool) (t0 : Nat) (ops1 ops2 : List TOp) (h0 
     unfold ledCtx ledEntered
     rw [hi id]
     exact ⟨rfl, rfl⟩
+
+/-! ## (2c) `stat.ResetResourceNodeMap()` in the middle of a history
+
+The node-map reset is a test utility outside the property's op list, but it can be called while entries are in flight.
+`resetNodes` empties the node map (the old nodes stay referenced by the contexts in flight and can never be looked up
+again).  Whatever ops follow, from any state, the **inbound node** — every inbound window, the inbound gauge — the recording
+log, the context seen through every live entry and every `Entry` outcome are exactly those of the run without the reset:
+an inbound entry that passed before a reset and exits after it is completed on the node it passed on. -/
+theorem nodemap_reset_irrelevant (fix : Bool) (s : St) (later : List TOp) :
+    let a := runFrom fix s later
+    let b := runFrom fix (resetNodes s) later
+    nodeOf a none = nodeOf b none ∧ a.log = b.log ∧
+    (∀ id, obsCtx a id = obsCtx b id) ∧ (∀ id, obsEntered a id = obsEntered b id) := by
+  have h := reset_irrelevant fix s later
+  refine ⟨by simp only [nodeOf, h.inb], h.log, ?_, ?_⟩
+  · intro id
+    have he := h.ents id
+    unfold obsCtx
+    cases h1 : findE (runFrom fix s later).ents id with
+    | none =>
+      cases h2 : findE (runFrom fix (resetNodes s) later).ents id with
+      | none => rfl
+      | some c' => rw [h1, h2] at he; simp at he
+    | some c =>
+      cases h2 : findE (runFrom fix (resetNodes s) later).ents id with
+      | none => rw [h1, h2] at he; simp at he
+      | some c' =>
+        rw [h1, h2] at he
+        obtain ⟨a1, _, a3, _, a5⟩ := noNode_fields (Option.some.inj he)
+        simp only [a1, a3, a5]
+  · intro id
+    have he := h.ents id
+    unfold obsEntered
+    cases h1 : findE (runFrom fix s later).ents id with
+    | none =>
+      cases h2 : findE (runFrom fix (resetNodes s) later).ents id with
+      | none => rfl
+      | some c' => rw [h1, h2] at he; simp at he
+    | some c =>
+      cases h2 : findE (runFrom fix (resetNodes s) later).ents id with
+      | none => rw [h1, h2] at he; simp at he
+      | some c' =>
+        rw [h1, h2] at he
+        obtain ⟨_, _, _, a4, _⟩ := noNode_fields (Option.some.inj he)
+        simp only [Option.map, a4]
+
+/-- the pooled model (the one the driver runs) performs the reset in step with the pool-free one -/
+theorem pooled_reset_refines {p : EntryPool.PSt} {s : St} (r : EntryPool.Rel p s) :
+    EntryPool.Rel (EntryPool.resetNodes p) (resetNodes s) := EntryPool.rel_reset r
 
 /-! ## (3) the statement for the code as it is, and where it fails -/
 
